@@ -88,7 +88,7 @@ def prune_cache(keep):
     d = os.path.join(BUILD, "bin")
     if os.path.isdir(d):
         ents = sorted((os.path.getmtime(os.path.join(d, e)), e) for e in os.listdir(d))
-        for _, e in ents[:-60]:
+        for _, e in ents[:-400]:
             p = os.path.join(d, e)
             shutil.rmtree(p, ignore_errors=True) if os.path.isdir(p) else os.remove(p)
 
@@ -159,7 +159,7 @@ def build_lib(flavour, with_tools=False):
         run(["ar", "rcs", toolslib + ".tmp"] + objs, check=True)
         os.rename(toolslib + ".tmp", toolslib)
     log("built %s library for tree %s in %.1fs" % (flavour, th, time.time() - t0))
-    prune_cache(6)
+    prune_cache(48)
     return lib
 
 
